@@ -458,6 +458,23 @@ class SMUserList(UserList, ABC):
         """
         return self.__class__(super().pop(i))
 
+    def __add__(self, other):
+        """
+        Concatenate two instances of the same type (SMUserList superclass method)
+
+        :raises TypeError: operands are of different types
+
+        Classes which define ``+`` as an arithmetic operator override this.
+        """
+        if not type(self) == type(other):
+            raise TypeError("can't concatenate different type of object")
+        return super().__add__(other)
+
+    def __iadd__(self, other):
+        if not type(self) == type(other):
+            raise TypeError("can't concatenate different type of object")
+        return super().__iadd__(other)
+
     def binop(self, right, op, op2=None, list1=True):
         """
         Perform binary operation
